@@ -65,7 +65,10 @@ void newline_del_between(Chunk *start, Chunk *end)
          }
          else
          {
-            if (pc->GetNlCount() > 1)
+            // the blank lines next to the text of a disabled region are lines of the region
+            if (  pc->GetNlCount() > 1
+               && !prev->Is(CT_IGNORED)
+               && !next->Is(CT_IGNORED))
             {
                pc->SetNlCount(1);
                MARK_CHANGE();
